@@ -17,7 +17,8 @@ import threading
 import vcheck as V
 
 FILES = ["walsim.go"]
-MUTANTS = ["no-flush-on-entries", "no-fsync-on-vote", "header-without-state", "rewrite-below-commit"]
+MUTANTS = ["no-flush-on-entries", "no-fsync-on-vote", "header-without-state", "rewrite-below-commit",
+           "release-keeps-one-less", "release-anywhere"]
 
 
 def _misnamed(seg):
@@ -107,7 +108,8 @@ def drive(ctx, zr, name, args, parts, stats, samples, timeout=2400):
             ctx.log("walsim %s part did not complete: %s" % (name, err))
             ctx.skipped += 1
             continue
-        for k in ("histories", "sim_histories", "calls", "cuts", "restarts", "images", "repaired", "big_entries"):
+        for k in ("histories", "sim_histories", "calls", "cuts", "restarts", "images", "repaired", "big_entries",
+                  "segments_purged", "releases", "syncs"):
             stats[k] = stats.get(k, 0) + summ.get(k, 0)
         stats["max_entry_bytes"] = max(stats.get("max_entry_bytes", 0), summ.get("max_entry_bytes", 0))
         for k in ("by_kind", "by_tail", "by_outcome"):
@@ -210,7 +212,8 @@ def run(ctx):
     def model(cfg, workers, timeout):
         models[cfg] = V.tlc(ctx, "MC_ZWal", cfg, workers=workers, timeout=timeout, tag="mc-" + cfg[:-4])
     plan = [("MC_ZWal_crash.cfg", 4, 200), ("MC_ZWal.cfg", 6, 240)] if q else \
-           [("MC_ZWal_crash.cfg", 4, 900), ("MC_ZWal.cfg", 4, 1200), ("MC_ZWal_mid.cfg", 6, 1800)]
+           [("MC_ZWal_crash.cfg", 4, 900), ("MC_ZWal.cfg", 4, 1200), ("MC_ZWal_mid.cfg", 6, 1800),
+            ("MC_ZWal_purge.cfg", 6, 1800)]
     threads = [threading.Thread(target=model, args=a) for a in plan]
     for t in threads:
         t.start()
@@ -248,6 +251,11 @@ def run(ctx):
         drive(ctx, zr, "sizes", ["-seed", seed, "-sizes", "1"], 1, stats, samples)
     else:
         drive(ctx, zr, "sizes", ["-seed", seed, "-sizes", "6", "-sizevariants", "3"], 3, stats, samples)
+    # lock release and purge: wal.Sync / ReleaseLockTo(snapshot index) / one pass of the real
+    # fileutil purge / restarts at the newest valid marker, on tiny segments that roll often;
+    # ZWalTrace bounds what purge may remove (Purge(max, k), k <= MaxPurge) and judges every image
+    drive(ctx, zr, "purge", ["-seed", seed, "-random", "8" if q else "48", "-purge", "-maximg", "4" if q else "8"],
+          4 if q else 8, stats, samples)
     # isolate stage of known finding C05-crc-chain-vacuous-after-first-crc
     drive(ctx, zr, "isolate-hole0", ["-seed", seed, "-random", "6" if q else "24", "-len", "10", "-hole0", "-imgevery", "3"],
           2 if q else 4, stats, samples)
@@ -310,6 +318,7 @@ def run(ctx):
         model_runs=runs,
         histories=stats.get("histories", 0), tlc_generated_histories=stats.get("sim_histories", 0),
         calls=stats.get("calls", 0), segment_rolls=stats.get("cuts", 0), clean_restarts=stats.get("restarts", 0),
+        lock_releases=stats.get("releases", 0), wal_syncs=stats.get("syncs", 0), segments_purged=stats.get("segments_purged", 0),
         entries_over_1MB=stats.get("big_entries", 0), largest_entry_bytes=stats.get("max_entry_bytes", 0),
         events_validated=stats["events"], mismatching_lines=stats["mismatches"],
         fault_enumeration=dict(
@@ -343,5 +352,9 @@ def run(ctx):
         "elsewhere must give an error, a cut at the flipped record, or have no effect",
         "entries stay below the decoder's own frame bound (100 MB): wal.Save accepts a larger entry but the "
         "reader treats its length field as garbage - outside the corpus",
-        "segment purge (fileutil.PurgeFile) and concurrent use of one WAL are not modelled",
+        "lock release and purge: the node releases at the index of a saved snapshot after wal.Sync() (marker and a "
+        "hard state that commits it are in the prefix that survives a crash) and restarts at the newest marker "
+        "ValidSnapshotEntries offers; PurgeKeepsWhatRestartNeeds is proved on MC_ZWal_purge under exactly these "
+        "rules; on real traces the purge pass is bounded by the model (Purge(max, k)) and every image is reopened",
+        "concurrent use of one WAL (raft loop vs snapshot goroutine) is not modelled: calls are sequential",
     ])
